@@ -12,7 +12,8 @@ EXPLANATION = (
     "(RESUME NEXT target); (R3) the three RESUME arms agree (clear ERR via "
     "take_last_error_address, pop the handler context) and the error edge pushes that context; "
     "(R4) GOSUB/RETURN stack ownership; (R5) register frames vs. user jumps; (R6) the error arm "
-    "of the fetch-execute loop restores the structures a failing statement had opened.")
+    "of the fetch-execute loop restores the structures a failing statement had opened; (R7) no arm of "
+    "interpret_one stores its jump target before its last failure point.")
 NOT_DECIDED = [
     "that control arrives exactly where written for every program layout (value-level addresses)",
     "RESUME re-executes the *same* statement (depends on the statement-address search, run time)",
@@ -357,6 +358,43 @@ def r6_error_unwinding(ctx, rule="C05.R6"):
     ctx.require(rule, 5)
 
 
+def r7_transfer_committed_last(ctx, rule="C05.R7"):
+    """An instruction that can fail must not have committed its control transfer before it fails:
+    in every arm of interpret_one a store into ctx.opt_next_index (the address the loop continues
+    at) is not followed, on any path of the arm, by the error side of a `?`.  (The loop only clears
+    opt_next_index after a successful instruction, so a stale target would be taken by the error
+    handler's first instruction: a failing `RESUME label` would act like a GOTO.)"""
+    prog = ctx.prog
+    one = ctx.anchor_method("Interpreter", "interpret_one")
+    body = one.body
+    sw, regions = _arm_regions(prog, one, "::Instruction")
+    err_targets = set()
+    for b, t in body.calls():
+        if (t.get("cpath") or "").endswith("Try::branch") and t.get("t") is not None:
+            tt = body.term(t["t"])
+            if tt["k"] == "switch":
+                err_targets |= {tgt for val, tgt in tt["ts"] if val == 1}
+    n = 0
+    for v in sorted(regions):
+        region = regions[v]
+        writes = []
+        for b in region:
+            for st in body.blocks[b]["s"]:
+                if st["k"] == "assign" and any(isinstance(e, dict) and e.get("n") == "opt_next_index" for e in st["p"][1]):
+                    writes.append((b, st.get("ln")))
+        if not writes:
+            continue
+        n += 1
+        bad = [(b, ln) for b, ln in writes if any(x in err_targets and x in region for x in body.reachable(b))]
+        ctx.decide(not bad, rule, "%s:%s:transfer-after-last-failure-point" % (rule, v), one.loc,
+                   "the jump target is stored after everything that can fail",
+                   "the %s arm stores its jump target (line %s) and can still fail afterwards: the loop keeps the "
+                   "stale target, and the error handler's first instruction jumps there instead of running the handler"
+                   % (v, bad[0][1] if bad else ""))
+    ctx.analysed_units(rule, arms_that_transfer_control=n)
+    ctx.require(rule, 6)
+
+
 def run(ctx):
     common.install(ctx)
     r1_error_codes(ctx)
@@ -365,3 +403,4 @@ def run(ctx):
     r4_gosub_pairing(ctx)
     r5_register_frames(ctx)
     r6_error_unwinding(ctx)
+    r7_transfer_committed_last(ctx)
